@@ -502,6 +502,21 @@ class Executor:
 
     def _assign(self, targets, value, st):
         outs = []
+        if len(targets) == 1 and isinstance(targets[0], ast.Tuple) and isinstance(value, ast.Tuple) and len(targets[0].elts) == len(value.elts) and not any(isinstance(e, ast.Starred) for e in value.elts + targets[0].elts):
+            # a, b = x, y : the right-hand sides are evaluated left to right, then bound
+            for s, kind, vs in self.eval_many(value.elts, st):
+                if kind == "exc":
+                    outs.append(Outcome("raise", s, vs))
+                    continue
+                cur = [(s, None)]
+                for tgt, v in zip(targets[0].elts, vs):
+                    nxt = []
+                    for s2, e in cur:
+                        nxt.extend(self.assign_to(tgt, v, s2) if e is None else [(s2, e)])
+                    cur = nxt
+                for s2, exc in cur:
+                    outs.append(Outcome("raise", s2, exc) if exc is not None else Outcome("normal", s2))
+            return outs
         for s, kind, v in self.eval(value, st):
             if kind == "exc":
                 outs.append(Outcome("raise", s, v))
@@ -1023,6 +1038,15 @@ class Executor:
                 h.set("dhas", z3.Store(h.arr("dhas"), ot, z3.Store(h.arr("dhas")[ot], kt, False)))
                 outs.append(Outcome("normal", s2))
         return outs
+
+    def stmt_FunctionDef(self, node, st):
+        """a nested `def`: the name is bound to an opaque closure value (its body is verified
+        separately under its own contract, `outer.<locals>.name`)"""
+        clo = self.fresh("closure_" + node.name)
+        st.assume(T.alloc0[clo] == False, z3.Not(isinst(clo, "NoneType")))  # noqa: E712
+        Heap(self, st).set("alloc", z3.Store(Heap(self, st).arr("alloc"), clo, True))
+        st.env[node.name] = sv_val(clo)
+        return [Outcome("normal", st)]
 
     def stmt_ImportFrom(self, node, st):
         # `from apischema import settings` inside functions: names resolved as module globals
